@@ -21,7 +21,7 @@ PROPS = {
                  'models of File / BorrowedFd / HandleData / InodeData / CString / ManuallyDrop (identity) in vx/units/ptsize.py'],
     ),
     'C05': dict(
-        vx_units=['ptops', 'ptstatx', 'fhandle', 'ptlookup'], kx=[], rx=['pt'],
+        vx_units=['ptops', 'ptstatx', 'fhandle', 'ptlookup', 'ptcore'], kx=[], rx=['pt'],
         # the host object a LOOKUP (and the entry reply of mkdir / mknod / symlink / link / create) is about: openat(parent's descriptor, exactly the client's name), `..` at
         # the export root being the root itself and nothing else being rewritten - the [open] capability of do_lookup in unit ptlookup ([C08.lookup.root_parent])
         alias=[r'^ptlookup\.do_lookup\.open$'],
@@ -38,7 +38,7 @@ PROPS = {
                  'the serving thread starts as root (precondition of every handler); rules R50-R56 (scoped_cred! expanded, libc::syscall(SYS_x) -> sys::x, scope-exit drops of the credential guards made explicit, pointer arguments named by their owner)'],
     ),
     'C06': dict(
-        vx_units=['vfs', 'pt', 'inodes', 'ptops', 'ptlookup'], kx=[], rx=['pt'],
+        vx_units=['vfs', 'pt', 'inodes', 'ptops', 'ptlookup', 'ptcore'], kx=[], rx=['pt'],
         # the `..`-at-the-export-root rewrite relies on the export root being known as inode 1 only: a root that can be forgotten can be re-registered under
         # another number and then be walked out of (seed C06-c)
         alias=[r'^C08\.forget\.root', r'^ptlookup\.do_lookup\.open$'],      # + `..` at the export root resolves to the root, and ONLY `..` does (the [open] capability of do_lookup, unit ptlookup)
@@ -132,7 +132,7 @@ PROPS = {
                  'kernel side: process_init_reply() reads flags2 only if FUSE_INIT_EXT is set in flags (fs/fuse/inode.c)'],
     ),
     'C08': dict(
-        vx_units=['inodes', 'ptlookup'], kx=[], rx=['pt'],
+        vx_units=['inodes', 'ptlookup', 'ptcore'], kx=[], rx=['pt'],
         design_ref='DESIGN.md A.4 / A.6 (D16, D17)',
         not_covered=[
             'forget_one keeping the store invariant of unit ptlookup (unit inodes states its frame only); import() itself (only the state it builds)',
@@ -193,7 +193,7 @@ PROPS = {
                  'rule R23: the ghost dirty-log parameter threaded through the real functions is erased by Verus (no run-time meaning); ABSTRACT of copy_nonoverlapping by vx_copy_to_guest'],
     ),
     'C15': dict(
-        vx_units=['handles', 'fhandle'], kx=[], rx=['pt'],
+        vx_units=['handles', 'fhandle', 'ptcore'], kx=[], rx=['pt'],
         design_ref='DESIGN.md A.4',
         not_covered=[
             'descriptor accounting of the handle table itself (when a File / Arc<HandleData> is dropped and closed): Arc drop and raw fds of HandleData are outside the model; for file handles and mount descriptors it IS modelled (unit fhandle: a ghost set of open descriptors, explicit scope-exit drops of File values, the drop glue of Arc<MountFd> spelled out) under the assumptions listed there - Weak::upgrade succeeds iff a strong reference exists, one MountFds table, one interfering get() for the same mount id; get_mount_root (mountinfo parsing) is contract-only',
